@@ -68,6 +68,36 @@ def run (p : Plan) : Result :=
         (match e with | .exit c => some c | _ => none)
         (match e with | .exit 0 => false | .exit _ => true | _ => false)
 
+/-! ### what a notification carries, and what the client knows under any delivery order -/
+
+/-- one notification on the state channel: the state, and whether it carries the whole task (exit code, exception,
+    output ...) or uid / type / state only -/
+structure Note where
+  st   : St
+  full : Bool
+deriving DecidableEq, Repr
+
+/-- `BaseComponent.advance`, publish loop: `$all` → the whole thing; otherwise the whole thing iff it is final - judged
+    by the state of the thing (`byThing`, what the translator reads from the source) or, the alternative shown for
+    contrast, by the `state` argument of the call (absent when the caller set `thing['state']` itself) -/
+def noteOf (byThing : Bool) (all : Bool) (arg : Option St) (thingState : St) : Note :=
+  { st := thingState,
+    full := all || (if byThing then thingState.isFinal
+                    else match arg with | some a => a.isFinal | none => false) }
+
+/-- the client's record of a task: its state and whether the details have arrived -/
+structure View where
+  st      : St
+  details : Bool
+deriving DecidableEq, Repr
+
+/-- `TaskManager._update_tasks` for one notification under an acceptance rule `acc` (the state progression test): an
+    accepted notification sets the state and, when it carries the whole task, the details -/
+def viewStep (acc : St → St → Bool) (v : View) (n : Note) : View :=
+  if acc v.st n.st then { st := n.st, details := v.details || n.full } else v
+
+def viewRun (acc : St → St → Bool) (v : View) (ns : List Note) : View := ns.foldl (viewStep acc) v
+
 def final (p : Plan) : St := (run p).emits.getLast!
 
 /-! ### `work_cb`: what happens when a work routine itself raises
